@@ -3,7 +3,7 @@ from common import COMMON_TB
 PROP = {
     "bin": "c11",
     "prop_file": "Properties/C11.v",
-    "model_files": ["Storage/Crash.v", "Storage/CrashProofs.v"],
+    "model_files": ["Storage/Crash.v", "Storage/CrashProofs.v", "Storage/WriteOnce.v", "Storage/Faults.v"],
     "level": "proof",
     "engine": "E1-storage",
     "harness_timeout": 1500,
@@ -20,7 +20,9 @@ PROP = {
                   "Faults are single-position (once / permanent from k); two independent faults per run are not generated. No axioms.",
     "technique": "Coq trace-monitor soundness (shared with C01) + fault injection at every storage operation index, monitor evaluated in Coq",
     "rule": "workloads of 5-14 operations; fault positions = every storage operation index (thorough) or ~75 spread positions (quick) x {once, permanent} x "
-            "{drop+reopen, rollback} recovery; non-trivial = the fault fired and at least one commit had succeeded",
+            "{drop+reopen, rollback} recovery; after a transient fault the batch whose commit failed is issued again once (unless the failed commit turns out to be published) and every call "
+            "after the recovery must succeed (known class F111: the retried commit collides with a delete file the failed attempt left behind); the removal of a lock file is never "
+            "failed (it happens in a Drop; a lock file left behind is the documented stale-lock situation); non-trivial = the fault fired and at least one commit had succeeded",
     "trusted_base": COMMON_TB + ["persistence model of coq/Storage/Crash.v", "VerifDirectory fault injection semantics"],
     "assumptions": ["a failed storage operation has no durable effect other than a possibly appended prefix", "single fault position per run"],
 }
